@@ -166,7 +166,12 @@ func (a *Aggregator[VR, GE, S, M]) Aggregate(
 
 	var bigR GE
 	if a.IsCosigning() {
-		bigR = a.bigR
+		// The cosigners answered with parity-corrected nonces, so the signature carries the corrected sum.
+		correctedR, err := a.variant.CorrectPartialNonceCommitmentParity(a.bigR, a.bigR)
+		if err != nil {
+			return nil, errs.Wrap(err).WithMessage("failed to correct the parity of the aggregated nonce commitment")
+		}
+		bigR = correctedR
 	} else {
 		bigR = iterutils.Reduce(slices.Values(partialSignatures.Values()),
 			a.group.OpIdentity(), func(acc GE, x *lindell22.PartialSignature[GE, S]) GE { return acc.Op(x.Sig.R) },
